@@ -288,9 +288,217 @@ impl Scenario for C10Pipes {
 pub fn check_c10() -> PropertyCheck {
   PropertyCheck {
     id: "C10",
-    scenarios: vec![Box::new(C10Pipes), Box::new(crate::props::c06::C06Threads)],
+    scenarios: vec![Box::new(C10Pipes), Box::new(C10Share), Box::new(crate::props::c06::C06Threads)],
     runs: (60_000, 8_000_000),
     rule: "pipelines: random _threads operator tree (depth <=2, 1-2 hot inputs, incl. merge/zip/combine_latest/take_until/merge_all/share/observe_on/delay _threads) driven by 2-3 simulated threads (next/complete/error, optionally one unsubscribing thread) plus 0-2 pool workers, every interleaving decision at MutArc lock points and inside probe callbacks drawn from the PRNG (random walk, PCT d<=3, mostly-sequential); subject part: the C06 thread scenario; non-trivial = >=1 decision with >1 eligible thread; distinct = distinct (case, schedule, behaviour) hashes",
     assumptions: vec!["no callback re-enters its own pipeline (the property's stated precondition)", "interleavings at lock granularity, sequentially consistent"],
+  }
+}
+
+// ---------------------------------------------------------------- c10.share
+
+#[derive(Clone, Debug, Serialize, Deserialize, PartialEq)]
+pub enum SOp {
+  Emit { inp: usize, ev: In },
+  /// subscribe a fresh probe to the shared observable
+  Subscribe,
+  /// unsubscribe the most recent subscription this thread made (or a pre-made one)
+  Unsub,
+}
+
+#[derive(Clone, Debug, Serialize, Deserialize)]
+pub struct SCase {
+  /// the shared source: build_shared(root).share_threads()
+  root: Node,
+  n_hot: usize,
+  pre_subscribed: usize,
+  threads: Vec<Vec<SOp>>,
+  sched: SchedSpec,
+}
+
+pub struct C10Share;
+impl Scenario for C10Share {
+  fn name(&self) -> &'static str {
+    "c10.share"
+  }
+  fn weight(&self) -> usize {
+    1
+  }
+  fn components(&self) -> (&'static [&'static str], &'static [&'static str]) {
+    (&["share_threads (ShareOpThreads, RefCountSubscription, inner SubjectThreads) with concurrent subscribe / unsubscribe / emit"], &["OS thread scheduling (baton)"])
+  }
+  fn generate(&self, rng: &mut Rng, _tier: Tier) -> Value {
+    let n_hot = rng.range(1, 2);
+    let cfg = GenCfg { max_depth: 1, n_hot, sched_weight: 0, exclude: vec!["GroupFlat", "Share"], allow_flat: true, producer_leaves: false };
+    let root = loop {
+      let r = gen_node(rng, &cfg, 0);
+      if r.valid(0) && r.size() <= 5 && r.op_names().iter().any(|n| n == "Hot") && !r.uses_scheduler() {
+        break r;
+      }
+    };
+    let nt = rng.range(2, 3);
+    let mut threads = Vec::new();
+    for _ in 0..nt {
+      let mut ops = Vec::new();
+      for _ in 0..rng.range(1, 4) {
+        ops.push(match rng.weighted(&[6, 3, 2]) {
+          0 => SOp::Emit { inp: rng.below(n_hot), ev: if rng.chance(1, 8) { In::Complete } else { In::Next } },
+          1 => SOp::Subscribe,
+          _ => SOp::Unsub,
+        });
+      }
+      threads.push(ops);
+    }
+    let strategy = match rng.below(3) {
+      0 => Strategy::Random,
+      1 => Strategy::Seq { den: 4 },
+      _ => Strategy::Pct { d: rng.range(1, 3) as u8, k: 60 },
+    };
+    serde_json::to_value(SCase { root, n_hot, pre_subscribed: rng.range(0, 2), threads, sched: SchedSpec::Seeded { seed: rng.next_u64(), strategy } }).unwrap()
+  }
+  fn run(&self, case: &Value) -> Result<Outcome, String> {
+    let case: SCase = serde_json::from_value(case.clone()).map_err(|e| e.to_string())?;
+    if case.n_hot == 0 || case.n_hot > 3 || !case.root.valid(0) || case.root.size() > 8 || case.root.uses_scheduler() || case.threads.is_empty() || case.threads.len() > 4 || case.pre_subscribed > 3 || case.threads.iter().any(|t| t.len() > 8) {
+      return Err("bad shape".into());
+    }
+    let shr = Shared::new();
+    let w = World::with_shared(shr.clone());
+    let counters = Arc::new(Counters::default());
+    let hots: Vec<SubjectThreads<Val, E>> = (0..case.n_hot).map(|_| SubjectThreads::default()).collect();
+    let env = EnvS { hots: hots.clone(), counters };
+    let subs = Arc::new(std::sync::atomic::AtomicUsize::new(0));
+    let shared_obs = match std::panic::catch_unwind(std::panic::AssertUnwindSafe(|| {
+      crate::props::c11::CountSrc::new(build_shared(&case.root, &env), subs.clone()).share_threads()
+    })) {
+      Ok(s) => s,
+      Err(p) => return Err(format!("panic while building: {}", panic_message(&*p))),
+    };
+    // probe slots: pre-subscribed first, then one per Subscribe op
+    let mut logs: Vec<Arc<ProbeLog>> = Vec::new();
+    let mut pre: Vec<Box<dyn crate::props::c06::SubHandle + Send>> = Vec::new();
+    for _ in 0..case.pre_subscribed {
+      let l = ProbeLog::new(true);
+      pre.push(Box::new(shared_obs.clone().actual_subscribe(Probe(l.clone()))));
+      logs.push(l);
+    }
+    let pre = Arc::new(Mutex::new(pre));
+    let mut slots: Vec<Vec<Option<usize>>> = Vec::new();
+    for ops in &case.threads {
+      slots.push(
+        ops
+          .iter()
+          .map(|o| {
+            if *o == SOp::Subscribe {
+              logs.push(ProbeLog::new(true));
+              Some(logs.len() - 1)
+            } else {
+              None
+            }
+          })
+          .collect(),
+      );
+    }
+    let ts = TSim::new(shr.clone(), &case.sched, case.threads.len(), 0, 30_000);
+    let mut bodies: Vec<Body> = Vec::new();
+    for (t, ops) in case.threads.iter().enumerate() {
+      let ops = ops.clone();
+      let hots = hots.clone();
+      let logs = logs.clone();
+      let slots = slots[t].clone();
+      let so = shared_obs.clone();
+      let pre = pre.clone();
+      bodies.push(Box::new(move || {
+        let mut own: Vec<Box<dyn crate::props::c06::SubHandle + Send>> = Vec::new();
+        let mut n = 0i64;
+        for (i, op) in ops.iter().enumerate() {
+          match op {
+            SOp::Emit { inp, ev } => {
+              let k = *inp % hots.len();
+              match ev {
+                In::Next => {
+                  n += 1;
+                  hots[k].clone().next(Val::I((t as i64 + 1) * 1000 + n))
+                }
+                In::Err => hots[k].clone().error(1),
+                In::Complete => hots[k].clone().complete(),
+              }
+            }
+            SOp::Subscribe => {
+              let l = logs[slots[i].unwrap()].clone();
+              own.push(Box::new(so.clone().actual_subscribe(Probe(l))));
+            }
+            SOp::Unsub => {
+              let h = own.pop().or_else(|| pre.lock().unwrap().pop());
+              if let Some(h) = h {
+                h.unsub();
+              }
+            }
+          }
+          harness_yield("between-ops");
+        }
+        drop(own);
+      }));
+    }
+    let rep = ts.run(bodies);
+    let site = format!("share_threads over {}", case.root.op_names().join("+"));
+    let mut violation = None;
+    if let Some(d) = &rep.deadlock {
+      violation = Some(Violation { rule: "c10.deadlock".into(), site: site.clone(), detail: format!("no thread can make progress: {}", d) });
+    } else if rep.budget_overrun {
+      violation = Some(Violation { rule: "c10.livelock".into(), site: site.clone(), detail: "step budget exhausted".into() });
+    } else if let Some((t, m)) = rep.panics.first() {
+      violation = Some(Violation { rule: "c10.panic".into(), site: site.clone(), detail: format!("thread {} panicked: {}", t, m) });
+    } else {
+      for (k, l) in logs.iter().enumerate() {
+        if l.overlap.load(SeqCst) {
+          violation = Some(Violation { rule: "c10.overlap".into(), site: site.clone(), detail: format!("subscriber {} was entered on two threads at once", k) });
+          break;
+        }
+        let evs = l.events();
+        if let Some(i) = grammar_violation(&evs) {
+          violation = Some(Violation { rule: "c10.grammar".into(), site: site.clone(), detail: format!("subscriber {}: notification #{} after the terminal: [{}]", k, i, fmt_trace(&evs)) });
+          break;
+        }
+      }
+      let sc = subs.load(SeqCst);
+      if violation.is_none() && sc > 1 {
+        violation = Some(Violation { rule: "c10.source-subscribed-twice".into(), site: site.clone(), detail: format!("concurrent subscribers made share_threads subscribe its source {} times", sc) });
+      }
+    }
+    let mut resolved = case.clone();
+    resolved.sched = SchedSpec::Explicit(rep.decisions.clone());
+    let mut h = rep.trace_hash;
+    for l in &logs {
+      for r in l.records() {
+        h = hash_mix(h, hash_str(&fmt_ev(&r.ev)) ^ (r.tid as u64) << 32);
+      }
+      h = hash_mix(h, 3);
+    }
+    let sample = format!(
+      "share_threads({}) pre={} threads={:?} decisions={} => {}",
+      serde_json::to_string(&case.root).unwrap_or_default(),
+      case.pre_subscribed,
+      case.threads,
+      rep.decisions.len(),
+      logs.iter().enumerate().map(|(k, l)| format!("s{}=[{}]", k, fmt_trace(&l.events()))).collect::<Vec<_>>().join(" ")
+    );
+    let _ = std::panic::catch_unwind(std::panic::AssertUnwindSafe(|| {
+      drop(pre);
+      drop(shared_obs);
+      drop(hots);
+      drop(env);
+      drop(w);
+    }));
+    Ok(Outcome {
+      violation,
+      trace_hash: h,
+      nontrivial: rep.multi_choice > 0,
+      sim_ns: 0,
+      steps: rep.steps,
+      faults: vec![("preemption_at_lock_point", rep.preemptions), ("lock_contention", rep.contentions)],
+      reach: vec![("try_lock_contention_observed", (rep.contentions > 0) as u64)],
+      resolved: Some(serde_json::to_value(resolved).unwrap()),
+      sample,
+    })
   }
 }
